@@ -75,7 +75,7 @@ fn check_image(cfg: &Cfg, st: DevState, want: &[u8], what: &str) -> Option<(Stri
             let mut f = fs.root_dir().open_file("f").map_err(|e| format!("open f failed: {:?}", sess::ek(e)))?;
             sess::read_all(&mut f, 1 << 24).map_err(|e| format!("read f failed: {e:?}"))
         })();
-        std::mem::forget(fs);
+        drop(fs);
         res
     });
     match r {
